@@ -245,6 +245,12 @@ fn main() {
         ] {
             cases.push((json!({"kind": "unusual-but-valid-request", "shape": label}), Case::Request { label: label.into(), raw }));
         }
+        // bodies that turn out too large only while they are being read (chunked): refused, but answered
+        for (label, len, chunk) in [("chunked-body-one-byte-over-the-limit-1KiB-chunks", 102401usize, 1024usize), ("chunked-body-over-the-limit-64KiB-chunks", 150000, 65536), ("chunked-body-twice-the-limit-one-chunk", 204800, 204800)] {
+            let body = vec![b'A'; len];
+            let cs = [chunk];
+            cases.push((json!({"kind": "unusual-but-valid-request", "shape": label}), Case::Request { label: label.into(), raw: build_request("POST", "/plain", &[("Host", b"h")], Some(&body), Some(&cs)) }));
+        }
         cases.push((json!({"kind": "percent-and-odd-url"}), Case::Request { label: "odd".into(), raw: build_request("GET", "/a%zz%?&&==&%00", &[("Host", b"h")], None, None) }));
         cases.push((json!({"kind": "provision-with-odd-tick"}), Case::Request { label: "prov".into(), raw: build_request("GET", "/provision", &[("Host", b"h"), ("Metadata", b"true"), ("x-ms-azure-time_tick", b"\xff\xfe99999999999999999999999999999999999999999999")], None, None) }));
     }
@@ -534,7 +540,7 @@ fn main() {
     res.cov("distinct_nontrivial", nontrivial.len() as u64);
     res.cov("panics_recorded", panics_total);
     res.cov("exhaustive", true);
-    res.cov("rule", "caller command lines/exe names made of 2-, 3- and 4-byte UTF-8 characters behind 0..w-1 ASCII bytes (every alignment against the byte-offset cuts at 512/1024/4096) x allowed/denied; callers whose executable path is not valid UTF-8 (directory, file name, both); callers whose main thread has exited (executable and command line unreadable), that are gone, or whose recorded pid is 0 / 2^32-1; requests with each header-value byte (0x09, 0x7f, 0x80..0xff; quick: 6 representatives) single and repeated, URLs/queries of 1000..65000 bytes, 90 repeated headers, a 30000-byte header value, requests without / with an empty / with two Host headers, HTTP/1.0, OPTIONS *, CONNECT (authority-form), absolute-form targets; query values with truncated / invalid percent escapes while rules with query parameters are in force; host replies to the key keeper's status poll over 9 content types x bodies (empty, 1-3 bytes, valid, multi-byte bodies at every alignment) x content-length / chunked with a 1- or 3-byte first chunk (odd UTF-16 frames) / a declared Content-Length of 2^63 or 2^40 with the connection closed; correct status answers that come 2x / 4x / 20x the poll interval late; 16 rule documents with dangling, duplicate, missing and empty names in force while matching requests arrive; wake-up notifications to the key keeper at every 0.125 ms offset across its poll interval; the cases run in a supervised child process, so a death of the whole process (abort, allocation failure) is attributed to the case in progress; after every case: no panic anywhere in the process, the request got an HTTP response, and listener, /provision, key keeper and status task are still live".to_string());
+    res.cov("rule", "caller command lines/exe names made of 2-, 3- and 4-byte UTF-8 characters behind 0..w-1 ASCII bytes (every alignment against the byte-offset cuts at 512/1024/4096) x allowed/denied; callers whose executable path is not valid UTF-8 (directory, file name, both); callers whose main thread has exited (executable and command line unreadable), that are gone, or whose recorded pid is 0 / 2^32-1; requests with each header-value byte (0x09, 0x7f, 0x80..0xff; quick: 6 representatives) single and repeated, URLs/queries of 1000..65000 bytes, 90 repeated headers, a 30000-byte header value, requests without / with an empty / with two Host headers, HTTP/1.0, OPTIONS *, CONNECT (authority-form), absolute-form targets, chunked bodies that exceed the size limit while being read; query values with truncated / invalid percent escapes while rules with query parameters are in force; host replies to the key keeper's status poll over 9 content types x bodies (empty, 1-3 bytes, valid, multi-byte bodies at every alignment) x content-length / chunked with a 1- or 3-byte first chunk (odd UTF-16 frames) / a declared Content-Length of 2^63 or 2^40 with the connection closed; correct status answers that come 2x / 4x / 20x the poll interval late; 16 rule documents with dangling, duplicate, missing and empty names in force while matching requests arrive; wake-up notifications to the key keeper at every 0.125 ms offset across its poll interval; the cases run in a supervised child process, so a death of the whole process (abort, allocation failure) is attributed to the case in progress; after every case: no panic anywhere in the process, the request got an HTTP response, and listener, /provision, key keeper and status task are still live".to_string());
     res.assume("a panic is attributed to the case during or directly after which it is recorded");
     std::process::exit(res.finish());
 }
